@@ -10,6 +10,7 @@ from ..core.run import Skip, require
 from ..engines.simmpi import SimViolation
 from ..models import cluster as M
 from . import clcommon as C
+from . import clrun
 from . import mpiops
 from . import appfam
 
@@ -29,7 +30,7 @@ ASSUMPTIONS = ['collective semantics follow the mpi4py documentation (no real MP
                'rank crash / message loss are not injected: MPI has no semantics for them',
                'bit-for-bit equality with the serial run is demanded only on scenarios the float64 model classifies '
                'as tie-free (every farthest-point choice and stopping test unambiguous beyond 1e-6 relative)']
-REACH_EXPECTED = ['farthest_point_changed_owner', 'rank_with_single_frame', 'eager_root_ran_ahead',
+REACH_EXPECTED = ['rmsd_trajectory_data', 'farthest_point_changed_owner', 'rank_with_single_frame', 'eager_root_ran_ahead',
                   'equal_length_group_on_rank', 'tie_free_equality_checked', 'kmedoids_stage_checked',
                   'schedule_independence_checked', 'op_randind_empty_local', 'app_end_to_end', 'app_equals_serial', 'app_subsample', 'app_files_not_in_name_order', 'app_no_reassign_without_subsample']
 
@@ -50,7 +51,8 @@ def pipeline(ctx):
     e = C.E()
     max_ranks = 12 if ctx.tier == 'thorough' else 8
     deep = ctx.tier == 'thorough' and t.flag(1, 4)
-    P = C.Problem(ctx, max_ranks=max_ranks, max_frames=150 if deep else 60, max_traj=36 if deep else 24, max_len=12 if deep else 9)
+    P = C.Problem(ctx, max_ranks=max_ranks, max_frames=150 if deep else 60, max_traj=36 if deep else 24, max_len=12 if deep else 9,
+                  allow_rmsd=True)
     k, cutoff = P.draw_stop(ctx)
     algo = t.choice(('kcenters', 'kcenters_tri', 'hybrid0', 'hybrid'))
     n_iters = t.irange(1, 3) if algo == 'hybrid' else 0
@@ -65,18 +67,18 @@ def pipeline(ctx):
     metric = P.sut_metric()
     kw = C.kc_kwargs(k, cutoff, spelling)
     lengths = np.array(P.lengths)
-    Xser = P.X.copy()
+    Xser = P.wrap(P.X.copy())
 
     # ---- serial reference (world of size one)
     if algo.startswith('kcenters'):
         serial = ctx.sut(e['kcenters'].kcenters, Xser, metric, use_triangle_inequality=(algo == 'kcenters_tri'), **kw)
     else:
         serial = ctx.sut(e['hybrid'].hybrid, Xser, metric, n_iters=0, **kw)
-    g, tie_free = M.greedy_run(P.X, P.model_metric, k, cutoff, tol=P.tie_tol(), cut_tol=P.cut_tol())
+    g, tie_free = M.greedy_run(P.X, P.model_metric, k, cutoff, tol=P.tie_tol(), cut_tol=P.cut_tol(), noise=P.noise)
 
     # ---- distributed run
-    locals_ = [P.local(r) for r in range(P.N)]
-    snaps = [x.copy() for x in locals_]
+    snaps = [P.local(r) for r in range(P.N)]
+    locals_ = [None] * P.N
     mpi_ops = e['mpi'].ops
 
     def rank_fn(r):
@@ -90,10 +92,11 @@ def pipeline(ctx):
         a = mpi_ops.assemble_striped_ragged_array(res.assignments, lengths.copy())
         c = mpi_ops.convert_local_indices(res.center_indices, lengths.copy())
         return dict(ci=[(int(x), int(y)) for x, y in res.center_indices], ld=np.array(res.distances),
-                    la=np.array(res.assignments), centers=[np.array(x) for x in res.centers],
+                    la=np.array(res.assignments), centers=[clrun.ctr(x) for x in res.centers],
                     d=d, a=a, c=[int(x) for x in c])
 
     def run_world(suffix):
+        locals_[:] = [P.wrap(x.copy()) for x in snaps]        # every execution starts from the same bytes
         with C.Poison(ctx, poison, seed=1 + rseed):
             w = C.make_world(ctx, P.N, poison, suffix=suffix)
             outs = w.run(rank_fn)
@@ -139,7 +142,7 @@ def check_world(ctx, P, outs, snaps, locals_, algo, n_iters, serial, g, tie_free
             ctx.hit('equal_length_group_on_rank')
     # inputs untouched on every rank
     for r in range(N):
-        require(C.same(locals_[r], snaps[r]), 'input_modified', lambda: 'rank %d data array changed' % r)
+        require(P.data_unchanged(locals_[r], snaps[r]), 'input_modified', lambda: 'rank %d data array changed' % r)
     # every rank holds the same re-assembled picture
     o0 = outs[0]
     for r in range(N):
@@ -153,7 +156,7 @@ def check_world(ctx, P, outs, snaps, locals_, algo, n_iters, serial, g, tie_free
                 lambda: 'assembled arrays differ between rank 0 and %d' % r)
         require(len(o['centers']) == len(o['c']), 'center_count_mismatch', 'rank %d' % r)
         for i, cc in enumerate(o['centers']):
-            require(np.array_equal(np.asarray(cc).reshape(P.X[0].shape), P.X[o['c'][i]]), 'center_not_frame',
+            require(M.frame_equal(P.metric_name, cc, P.X[o['c'][i]]), 'center_not_frame',
                     lambda: 'rank %d: centre %d coordinates %s are not global frame %d %s' %
                     (r, i, cc, o['c'][i], P.X[o['c'][i]]))
     d, a, c = np.asarray(o0['d']), np.asarray(o0['a']), o0['c']
@@ -175,7 +178,7 @@ def check_world(ctx, P, outs, snaps, locals_, algo, n_iters, serial, g, tie_free
             require(np.array_equal(serial.assignments, a), 'differs_from_serial',
                     lambda: 'labels differ from the serial run at frames %s' %
                     np.where(np.asarray(serial.assignments) != a)[0][:8].tolist())
-            require(np.array_equal(serial.distances, d), 'differs_from_serial',
+            require(P.same_dist(serial.distances, d), 'differs_from_serial',
                     lambda: 'distances differ from the serial run at frames %s' %
                     np.where(np.asarray(serial.distances) != d)[0][:8].tolist())
             ctx.hit('tie_free_equality_checked')
